@@ -60,7 +60,7 @@ def cases(tier, seed):
     out = []
     for s in SHAPES:
         out += [f"{s}/closed", f"{s}/roundtrip", f"{s}/segindep"]
-    out += ["hourly/stored", "caltrack/stored", "refit/daily", "refit/billing"]
+    out += ["hourly/stored", "hourly/fitted", "caltrack/stored", "refit/daily", "refit/billing"]
     return out
 
 
@@ -394,8 +394,61 @@ def run_refit(case, fam):
     case.sample(dict(family=fam, histories=len(paths)))
 
 
+# ---------------------------------------------------------------- hourly family: a REAL fit (harness-side sklearn shim)
+
+def replay_hourly_fitted(inp):
+    """fit -> to_json -> from_json -> to_json -> from_json: same document (as data), same predictions on reporting data"""
+    import logging
+    logging.disable(logging.CRITICAL)
+    from opendsm.eemeter.models.hourly.model import HourlyModel
+    from . import hourlyref as H
+    st = dict(scaling_method=inp["scaling"])
+    if inp["adaptive"]:
+        st["elasticnet"] = dict(adaptive_weights=True, adaptive_weight_max_iter=3, adaptive_weight_tol=1e-4)
+    m, data = H.fitted(noise=0.05, gaps=(("temperature", 500, 503),), settings=st, solar=inp["solar"])
+    pr = []
+    t1 = m.to_json(); m1 = HourlyModel.from_json(t1); t2 = m1.to_json(); m2 = HourlyModel.from_json(t2)
+    if json.loads(t1) != json.loads(t2):
+        pr.append(f"re-serialised document differs in {[k for k in json.loads(t1) if json.loads(t1)[k] != json.loads(t2).get(k)][:4]}")
+    for span in (("2021-03-12", 4), ("2021-11-05", 4)):
+        p0 = m.predict(H.reporting(*span, ghi=inp["solar"]), ignore_disqualification=True)["predicted"].to_numpy()
+        for who, mm in (("reloaded", m1), ("reloaded twice", m2)):
+            q = mm.predict(H.reporting(*span, ghi=inp["solar"]), ignore_disqualification=True)["predicted"].to_numpy()
+            if p0.tobytes() != q.tobytes():
+                pr.append(f"{who} model predicts differently from the fitted object on {span[0]} ({int((p0 != q).sum())} of {len(p0)} hours)")
+    if str(m1.baseline_timezone) != str(m.baseline_timezone) or [w.qualified_name for w in m1.disqualification] != [w.qualified_name for w in m.disqualification]:
+        pr.append("timezone / disqualification not kept")
+    return bool(pr), "; ".join(pr[:3])
+
+
+REPLAY["hourly_fitted"] = replay_hourly_fitted
+
+
+def run_hourly_fitted(case):
+    from . import dailyframe as F
+    case.inputs = []
+
+    def run():
+        inp = dict(scaling=F.choose("scaling", ["standardscaler", "robustscaler"]), solar=F.choose("solar", [False, True]), adaptive=F.choose("adaptive", [False, True]))
+        return inp, replay_hourly_fitted(inp)
+
+    paths = case.explore(run)
+    for p in paths:
+        if p.outcome != "ret":
+            case.rep["harness_errors"].append(f"real hourly fit round trip raised {p.value!r}")
+            continue
+        inp, (bad, det) = p.value
+        label = "a really fitted hourly model survives to_json/from_json twice: same document, bit-identical predictions"
+        if not case.ground(not bad, label):
+            case.violation(label, "hourly_fitted", inp, det)
+        case.regime("real hourly fit stored and reloaded")
+    case.sample(dict(entry="HourlyModel.fit -> to_json -> from_json (real fit)", fits=len(paths)))
+
+
 def run_case(case: Case, name: str):
     shape, mode = name.split("/")
+    if shape == "hourly" and name.endswith("/fitted"):
+        return run_hourly_fitted(case)
     if shape == "hourly":
         return run_hourly(case)
     if shape == "caltrack":
